@@ -118,7 +118,14 @@ def np_dtype(it, spec):
             return SDtype(*table[spec])
         if spec[:1] in KINDS and spec[1:].isdigit():
             return np_dtype(it, SDtStr(spec[0], int(spec[1:])))
+    if isinstance(spec, ExternalRef) and spec.name in NUMPY_SCALAR_TYPES:
+        return SDtype(*NUMPY_SCALAR_TYPES[spec.name])         # np.float64 etc. used as a dtype
     raise Unsupported("np.dtype(%r)" % (spec,))
+
+
+NUMPY_SCALAR_TYPES = {"numpy.float64": ("f", 8), "numpy.float32": ("f", 4), "numpy.float16": ("f", 2),
+                      "numpy.complex128": ("c", 16), "numpy.complex64": ("c", 8), "numpy.int64": ("i", 8),
+                      "numpy.int32": ("i", 4), "numpy.bool_": ("b", 1)}
 
 
 class SNd(SV):
